@@ -51,3 +51,26 @@ package system
 //@ requires s.config.SubmissionBatchSize > 0 && s.config.CompletionBatchSize > 0 && s.shutdown != nil && !closed(s.shutdown) && s.shortCircuit != nil
 //@ loop 1 invariant !closed(s.shutdown) && s.config != nil && s.aio != nil && s.api != nil && s.scheduler != nil && s.onRequest != nil && s.metrics != nil && s.metrics.CoroutinesTotal != nil && s.metrics.CoroutinesInFlight != nil && s.config.SubmissionBatchSize > 0 && s.config.CompletionBatchSize > 0 && s.shortCircuit != nil
 //@ site return assert itercalls("tick") == 1
+
+// The kernel is done only when the api reports done (shutdown requested, nothing queued) AND no coroutine is
+// still running (C12: requests already accepted are completed and answered before the server stops).
+//@ func (*System).Done
+//@ props C12
+//@ abstract-calls force ^(Done|Size)$
+//@ requires s != nil
+//@ ensures [body C12] result ==> calls("Done") == 1 && callres("Done", 0, 0) && calls("Size") == 1 && callres("Size", 0, 0) == 0
+
+// Shutdown first tells the api to refuse new requests, then wakes the loop; it hands back the channel the loop
+// closes when it has drained.
+//@ func (*System).Shutdown
+//@ props C12
+//@ abstract-calls ^Shutdown$
+//@ requires s != nil && s.shortCircuit != nil && !closed(s.shortCircuit)
+//@ ensures [body C12] calls("Shutdown") == 1
+//@ ensures closed(s.shortCircuit) && result == s.shutdown
+
+// Registering a coroutine for a request kind stores it under exactly that kind.
+//@ func (*System).AddOnRequest
+//@ props C12 C15
+//@ requires s != nil && s.onRequest != nil
+//@ ensures has_key(s.onRequest, kind)
